@@ -82,6 +82,20 @@ def run(ctx, scratch):
                 for p in (perms4[3] if not quick else rng.sample(perms4[3], 3)):
                     s2, o2 = cases.permute_case(spec, opts, list(p))
                     _one(ctx, impl, name, spec, opts, s2, o2, list(p), 'exh_3_loops')
+        # dense graphs on 6-8 nodes x many numberings (nested neighbourhoods: clique listing, cores, triangles)
+        dense_kernels = [n for n in exact if n.startswith('count_') or n == 'get_core_decomposition']
+        for _ in range(16 if quick else 120):
+            n = rng.randint(6, 8)
+            E = [(i, j) for i in range(n) for j in range(i + 1, n) if rng.random() < rng.choice([0.6, 0.75, 0.9])]
+            if not E:
+                continue
+            spec = dict(shape=[n, n], coo=[[i, j, 1] for (i, j) in gen.sym(E)], dtype='int', fmt='csr')
+            for name in dense_kernels:
+                opts = cases.make_opts(rng, desc[name], n, n, False)
+                for _k in range(12 if quick else 40):
+                    p = gen.random_perm(rng, n)
+                    s2, o2 = cases.permute_case(spec, opts, p)
+                    _one(ctx, impl, name, spec, opts, s2, o2, p, 'dense_%d' % n)
         # Weisfeiler-Lehman: colouring = colour refinement; never "non-isomorphic" for a renumbered copy
         for k in range(150 if quick else 1500):
             if k < 60:
